@@ -26,6 +26,7 @@ CONSTANTS Modes,        \* subset of {"compress", "decompress"}
           ModeBits,     \* set of permission classes, e.g. {"0644", "0600", "0755", "4755"}
           ErrModes,     \* subset of BOOLEAN: TRUE = standard error cannot be written (e.g. 2>/dev/full): a diagnostic that
                         \* cannot be printed is itself a fatal error (log_generic -> bailout)
+          Stems,        \* subset of {"x", ""}: "" = the operand's whole name is the suffix (a file called ".bz2")
           MaxOperands   \* length of operand lists for the fold property
 
 CompSuffixes == {".bz2", ".tbz2", ".tbz", ".tz2"}
@@ -45,8 +46,8 @@ Effect(mode, opts, op) ==
       om == OutMode(mode, opts)
       force == "f" \in opts
       keep == "k" \in opts
-      name == "x" \o op.suffix
-      outname == IF dec THEN DecompName("x", op.suffix) ELSE name \o ".bz2"
+      name == op.stem \o op.suffix
+      outname == IF dec THEN DecompName(op.stem, op.suffix) ELSE name \o ".bz2"
       skip(r) == [outcome |-> "skip", outname |-> outname, removes_input |-> FALSE, creates_output |-> FALSE, reason |-> r]
   IN
   \* ---- input_init
@@ -56,6 +57,7 @@ Effect(mode, opts, op) ==
   ELSE IF ~dec /\ op.suffix \in CompSuffixes THEN skip("compressed suffix")
   ELSE IF op.kind = "missing" THEN skip("open")
   \* ---- output_init
+  ELSE IF om = "regf" /\ outname = "" THEN skip("empty output name")       \* ".bz2" decompresses to "": open() fails
   ELSE IF om = "regf" /\ op.existing = "file" /\ ~force THEN skip("output exists")
   ELSE IF om = "regf" /\ op.existing = "directory" THEN skip("output is a directory")
   \* ---- work
@@ -86,8 +88,10 @@ Processed(mode, opts, ops, errfull) == \* how many operands are dealt with befor
                               ELSE IF EffectE(mode, opts, ops[i], errfull).outcome = "fatal" THEN i - 1 ELSE i
   IN F[Len(ops)]
 
-Operands == [kind : Kinds, suffix : Suffixes, existing : Existing, content : Contents, bits : ModeBits]
+Operands == [kind : Kinds, suffix : Suffixes, existing : Existing, content : Contents, bits : ModeBits, stem : Stems]
 Sensible(op) == /\ (op.kind \in {"missing", "directory", "fifo"} => op.content = "good" /\ op.bits = "0644")
+                \* a bare name needs a suffix, and is only used for plain regular operands without a pre-existing output
+                /\ (op.stem = "" => op.suffix # "" /\ op.kind = "regular" /\ op.existing = "none" /\ op.bits = "0644")
                 /\ (op.existing # "none" => op.bits = "0644")
 Scenarios == {[mode |-> m, opts |-> o, ops |-> s, errfull |-> ef] : m \in Modes, o \in OptSets, ef \in ErrModes,
               s \in UNION {[1..n -> {op \in Operands : Sensible(op)}] : n \in 1..MaxOperands}}
